@@ -442,10 +442,15 @@ T_VALUES = [0.5, 1.5]
 VAR_DIMS_SPELLINGS = [{"v": ["t"]}, {"v": "t"}, (("v", ("t",)),), {("v",): "t"}, [[], ["t"]], {("v",): ("t",), "x": ()}]
 
 
-def _ds_fn(log, mode):
+def _ds_fn(log, mode, first_index=None):
     """Wrap the call log so that results have the shape the Dataset variant needs."""
     def fn(**kw):
         i = log(**kw)          # log returns make_result(i, 'int')
+        if mode == "autovar":
+            # a labelled result whose internal coordinate depends on the first swept argument: t = [j, j + 1]
+            import xarray as xr
+            j = first_index(i)
+            return xr.Dataset({"x": float(i), "v": ("t", np.array([float(i), i + 0.5]))}, coords={"t": [j, j + 1]})
         if mode == "x":
             return float(i)
         if mode == "xy":
@@ -518,14 +523,14 @@ def replay_case(case, variant):
             else:
                 mode = variant.get("ds", "x")
                 to_df = kind == "df"
-                var_names = {"x": "x", "xy": ["x", "y"], "xv": ["x", "v"], "auto": None, "autodict": None}[mode]
+                var_names = {"x": "x", "xy": ["x", "y"], "xv": ["x", "v"], "auto": None, "autodict": None, "autovar": None}[mode]
                 var_dims = None
                 var_coords = None
                 if mode == "xv":
                     var_dims = VAR_DIMS_SPELLINGS[variant.get("vds", 0)]
                     if not cfg["meta"]["cdim"]:
                         var_coords = {"t": T_VALUES}
-                dfn = _ds_fn(log, mode)
+                dfn = _ds_fn(log, mode, first_index=lambda i: (case["settings"][i - 1][0] if 1 <= i <= len(case["settings"]) and case["settings"][i - 1] else 1))
                 kwargs = dict(var_dims=var_dims, var_coords=var_coords, constants=consts or None,
                               resources=conc.resources or None, attrs=conc.attrs or None)
                 def decoy(r):
@@ -649,7 +654,7 @@ def check_ds(case, conc, variant, ds):
     mode = variant.get("ds", "x")
     axes = case["axes"]
     avals = axis_values(conc, axes)
-    vars_ = {"x": ["x"], "xy": ["x", "y"], "xv": ["x", "v"], "auto": ["x", "v"], "autodict": ["x", "y"]}[mode]
+    vars_ = {"x": ["x"], "xy": ["x", "y"], "xv": ["x", "v"], "auto": ["x", "v"], "autodict": ["x", "y"], "autovar": ["x", "v"]}[mode]
     if sorted(ds.data_vars) != sorted(vars_):
         return "data variables %r, expected %r" % (sorted(ds.data_vars), sorted(vars_))
     for nm, vals in zip(conc.fn_args, avals):
@@ -663,11 +668,17 @@ def check_ds(case, conc, variant, ds):
         if tuple(ds[v].dims) != want:
             return "variable %r has dims %r, expected %r" % (v, tuple(ds[v].dims), want)
     want_coords = set(conc.fn_args) | set(case["coords"])
-    if mode == "auto":
+    if mode in ("auto", "autovar"):
         want_coords |= {"t"}
     if set(map(str, ds.coords)) != want_coords:
         return "coordinates %r, expected %r" % (sorted(map(str, ds.coords)), sorted(want_coords))
-    if "t" in want_coords and list(np.asarray(ds["t"].values, dtype=float)) != T_VALUES:
+    tvals = None
+    if mode == "autovar":
+        js = sorted({s_[0] if s_ else 1 for s_ in case["settings"]})
+        tvals = sorted({j for j in js} | {j + 1 for j in js})
+        if list(np.asarray(ds["t"].values, dtype=float)) != [float(t) for t in tvals]:
+            return "coordinate t is %r, expected the union %r of the calls' own coordinates" % (ds["t"].values, tvals)
+    elif "t" in want_coords and list(np.asarray(ds["t"].values, dtype=float)) != T_VALUES:
         return "coordinate t is %r" % (ds["t"].values,)
     if set(ds.attrs) != set(case["attrs"]):
         return "attributes %r, expected %r (constants -> attrs unless they name a dimension; resources never)" % (
@@ -686,6 +697,9 @@ def check_ds(case, conc, variant, ds):
                 want = np.array(float(i)) if i else np.array(np.nan)
             elif v == "y":
                 want = np.array(float(2 * i)) if i else np.array(np.nan)
+            elif tvals is not None:
+                j = case["settings"][i - 1][0] if i and case["settings"][i - 1] else None
+                want = np.array([float(i) if (i and t == j) else (i + 0.5 if (i and t == j + 1) else np.nan) for t in tvals])
             else:
                 want = np.array([float(i), i + 0.5]) if i else np.array([np.nan, np.nan])
             if a.shape != want.shape or not np.array_equal(a, want, equal_nan=True):
@@ -754,7 +768,7 @@ def variants_for(case, idx, prop, n_variants):
         elif cfg["kind"] == "ds":
             modes = ["x", "xy", "xv", "auto"] if cfg["meta"]["tdim"] else ["x", "xy", "autodict"]
             if cfg["meta"]["tdim"]:
-                modes = ["xv", "auto"] if not cfg["meta"]["cdim"] else ["xv"]
+                modes = ["xv", "auto", "autovar"] if not cfg["meta"]["cdim"] else ["xv"]
             v["ds"] = modes[(k + j) % len(modes)]
             entries = ["to_ds", "runner", "label"] + (["case_to"] if cfg["nca"] else [])
             v["entry"] = entries[(k + j) % len(entries)]
